@@ -180,6 +180,23 @@ int main(int argc, char** argv) {
     }
   }
   vr::Family f5;
+  // LK2: very long escaped keys (beyond any fixed-size scratch buffer)
+  static std::vector<std::pair<uint32_t, uint32_t>> LK2;
+  if (LK2.empty()) {
+    std::vector<uint32_t> Ts;
+    for (uint32_t t = 250; t <= 262; t++) Ts.push_back(t);
+    for (uint32_t t = 440; t <= 560; t += 2) Ts.push_back(t);
+    for (uint32_t b : {1024u, 4096u, 65536u})
+      for (int d = -2; d <= 2; d++) Ts.push_back(b + d);
+    for (uint32_t T : Ts)
+      for (uint32_t pp : {0u, 1u, 31u, T / 2, T - 33, T - 1, T}) LK2.push_back({pp, T - pp});
+  }
+  vr::Family f4b;
+  f4b.name = "LK2_very_long_escaped_keys";
+  f4b.count = (uint64_t)LK2.size() * 5 * 3;
+  f4b.group = "LK2";
+  f4b.chunk = 16;
+  f4b.rule = "as LK with keys of total length T in 250..262, 440..560 (step 2) and +-2 around 1024, 4096, 65536; the escape after 0, 1, 31, T/2, T-33, T-1, T plain bytes";
   // LV: member COUNTS. Target of N members, source bringing M new keys and updates of the first / middle / last
   // existing member, in 4 layouts: any growth of the target's member array happens while the merge is in progress
   static std::vector<unsigned> NV = {0, 1, 2, 3, 8, 15, 16, 17, 24, 31, 32, 33, 34, 40, 64, 65}, MV;
@@ -315,7 +332,14 @@ int main(int argc, char** argv) {
       idx /= 3;
       unsigned ek = (unsigned)(idx % 5);
       idx /= 5;
-      unsigned q = (unsigned)(idx % 71), p = (unsigned)(idx / 71);
+      unsigned q, p;
+      if (f.name[2] == '2') {
+        p = LK2[idx].first;
+        q = LK2[idx].second;
+      } else {
+        q = (unsigned)(idx % 71);
+        p = (unsigned)(idx / 71);
+      }
       std::string KE = "\"" + std::string(p, 'x') + kEsc[ek] + std::string(q, 'y') + "\"";
       std::string t, s;
       if (mode == 0) {
@@ -381,7 +405,7 @@ int main(int argc, char** argv) {
     if (ref::has_dup_keys(r.v)) ctx.violation("lazy_dup_keys", "lazy_dup_keys", desc, "result %s has duplicate keys", out.c_str());
   };
 
-  std::vector<vr::Family> fams = {f1, f2, f3, f4, f5, f6};
+  std::vector<vr::Family> fams = {f1, f2, f3, f4, f4b, f5, f6};
   if (args.replay) return R.replay_one(fams, check);
   const std::string only = args.get("only");
   for (auto& f : fams)
